@@ -23,7 +23,30 @@ CHECKS = {
    note="Trusts the harness's SimReader/SimWriter to model legal std::io behaviour, the canonical DOM text for equality, and the 64 MiB/256 MiB ceilings as 'unrelated to input' for inputs <= 2 MiB. C libraries (lz4, zstd) allocate outside the counting allocator."),
 }
 
-PENDING = {k: 'check under construction in this round (deterministic simulation applies; see DESIGN.md section 4); not claimed until its check is registered' for k in ['C07','C09','C10','C11','C12','C18']}
+CHECKS.update({
+ "C18": dict(engine="schedsim", category="exploration", design_ref="DESIGN.md 4.2",
+   technique="deterministic simulation: seeded cooperative scheduler over real threads, yield point before every Arc/Weak/Mutex operation of the real SharedString code; invariants checked during the run; recorded schedule is the replay",
+   text="Seeded search over interleavings (uniform, sticky and PCT-style strategies) of 2-4 thread programs of new/clone/drop/read/compare against the real SharedString and its real global intern table. Oracles during the run: content, equality/hash, all registered live handles with equal contents share one buffer, no deadlock or panic, table empty at quiescence. A failing schedule is shrunk and replayed from its recorded choice list. Sampling, not exhaustive.",
+   note="Interleavings only at synchronisation operations of the shimmed types (hook H1/H2); unsynchronised data races are out of reach here (Miri tier). The shim wraps the real std primitives."),
+ "C09": dict(engine="domsim", category="exploration", design_ref="DESIGN.md 4.4",
+   technique="deterministic simulation of operation histories over 1-3 real WeakDoms with owned Ref/hash-key seams; forest invariants checked on the real DOMs (public API) after every step; shrinking to a minimal history",
+   text="Seeded histories of insert/destroy/transfer_within/transfer/clone_*/into_raw+from_raw within documented preconditions; after every step each DOM is checked as a well-formed forest through the public API only (child/parent agreement, listed exactly once, no cycles, parentless root, removed instances unresolvable, descendants iterator exact and parents-first). Sampling of histories, not exhaustive.",
+   note="Which referents count as removed is computed from the real DOM before the operation; arguments are drawn from the reference model's node sets."),
+ "C10": dict(engine="domsim", category="exploration", design_ref="DESIGN.md 4.4",
+   technique="deterministic simulation of operation histories compared step by step with an executable reference model (plain ordered trees); conservation across DOMs; shrinking to a minimal history",
+   text="Same histories as C09; after every step the real DOMs must equal the reference model (referent, parent, child order, name, class, exact property values), which includes the frame condition for untouched instances, conservation under transfer, insert's return value, and no leaked instances in into_raw() at the end.",
+   note="Trusts the ~150-line reference model as the documented meaning of each operation. Clone referents are bound by parallel traversal, not predicted."),
+ "C11": dict(engine="domsim", category="exploration", design_ref="DESIGN.md 4.4",
+   technique="deterministic simulation of operation histories with clone operations checked against the reference model's three-way Ref rewrite rule; shrinking to a minimal history",
+   text="Histories biased towards clone_within / clone_into_external / clone_multiple_into_external interleaved with the other operations; each clone must be parentless, use only fresh referents, be isomorphic to the original (shape, order, names, classes, values), leave the source DOM unchanged, and rewrite every Ref property by the three-way rule evaluated against the destination DOM.",
+   note="Ref properties nested inside Content or Attributes are not generated (the property speaks of Ref properties). clone_multiple is exercised with distinct non-overlapping subtrees only."),
+ "C12": dict(engine="domsim+schedsim", category="exploration", design_ref="DESIGN.md 4.3",
+   technique="deterministic simulation: operation histories with a UniqueId ledger oracle (incl. encode/decode and duplicate-id files), clock/RNG fault injection on the UniqueId::now() seam, and seeded thread schedules over the AtomicU32 index",
+   text="Three parts in one check: (a) histories over DOMs whose builders carry UniqueIds from a small pool, with an order-agnostic ledger oracle after every step (no duplicates per DOM, exactly one holder keeps a non-colliding id, colliding ids are replaced by fresh ones, nobody else changes, freed ids are reusable) including DOMs obtained from both readers; (b) frozen/jumping clock and constant/cycling RNG injected behind UniqueId::now(); (c) 2-4 threads calling UniqueId::now() under the seeded scheduler, all ids distinct.",
+   note="For decode operations only uniqueness and bookkeeping are asserted, not value fidelity (C01/C02). Clock values outside the window in which now() is documented to work are excluded. Known findings for DOMs produced by rbx_xml are listed in known_findings.json."),
+})
+
+PENDING = {k: 'check under construction in this round (deterministic simulation applies; see DESIGN.md section 4); not claimed until its check is registered' for k in ['C07']}
 
 def main():
     props = [json.loads(l) for l in open('/verif/properties.jsonl')]
